@@ -1050,7 +1050,7 @@ def build_wildcard_re(lookup_value):
 
     compiled = re.compile(''.join(regex), re.DOTALL)
     return lambda x: (
-        x is not None and compiled.fullmatch(x.lower()) is not None)
+        isinstance(x, str) and compiled.fullmatch(x.lower()) is not None)
 
 
 def criteria_parser(criteria):
